@@ -218,7 +218,7 @@ def corpus(seed, n, ekf=True):
     out = []
     for t in range(n):
         shp = shapes[t % len(shapes)]
-        out.append((scenarios.Scenario(shp[0], shp[1], shp[2], shp[3], seed=seed + 31 * t, transcendental=(t % 4 == 3), share_reading=True, rational=(t % 3 == 1), nonsmooth=(t % 5 == 2), magnitude=(t % 6 == 4), redundant=(t % 7 == 5)), shp))
+        out.append((scenarios.Scenario(shp[0], shp[1], shp[2], shp[3], seed=seed + 31 * t, transcendental=(t % 4 == 3), share_reading=True, rational=(t % 3 == 1), nonsmooth=(t % 5 == 2), magnitude=(t % 6 == 4), redundant=(t % 7 == 5), tiny=(t % 6 == 3)), shp))
     return out
 
 
@@ -238,4 +238,12 @@ def check_c08(run):
             for ob, p in probs[:1]:
                 fails += 1
                 run.findings.append(Finding(ob.name, "cxx", f"program shape {shp}, cse={cse}: {p}", {"language": "c++", "inputs": {"shape": list(shp), "seed": run.seed + 31 * t, "cse": cse}, "model_definition": sc.describe()}, True))
+    # a plain model whose wrapped quantity Mod(v, 3) is SHARED by two updates: with CSE on it is hoisted into a temporary, which must
+    # be printed with the same meaning as everything else (floored modulo; negative operands are sampled)
+    wm = scenarios.Scenario(2, 0, 1, [1], seed=run.seed + 11, wrapped=True)
+    for cse in (True, False):
+        probs, h, s = validate_program(run, wm, f"wrapped_model.cse_{'on' if cse else 'off'}", cse=cse, ekf=False, prefix="C08")
+        for ob, p in probs[:1]:
+            fails += 1
+            run.findings.append(Finding(ob.name, "cxx.wrapped", f"plain model with a shared Mod(v, 3), cse={cse}: {p}", {"language": "c++", "inputs": {"shape": [2, 0, 1, [1]], "seed": run.seed + 11, "cse": cse, "ekf": False, "wrapped_model": True}, "model_definition": wm.describe()}, True))
     run.bounded.append({"what": "generated C++ per program: bodies parsed, every temporary assigned once before use, every output proved equal (z3) to the symbolic expression with CSE on AND off", "bound": f"{n} programs x 2 CSE settings", "failures": fails, "counted_as_proved": False})
